@@ -1660,3 +1660,269 @@ Proof.
   intros o ob Ho. destruct o as [r|r| |ms], ob as [rp lg| |]; cbn [reply_ok ranged_ok] in *; auto.
   intros lo hi Hs. apply Ho. unfold leaks. apply contains_sub_slice in Hs. rewrite Hs. reflexivity.
 Qed.
+
+(** ---------------------------------------------------------------------------
+    Files that change during a history: the cache invariant (no stored variant carries the secret) does not depend on
+    the world, and every step preserves it in the world of its own moment. *)
+Section ChangingConfined.
+  Variable fix_errline cors : bool.
+  Variable secret : bytes.
+  Hypothesis Hcors : cors = true -> contains_sub secret (ps_body cors_pst) = false.
+  Variable cache_on ims_on fix_ovkey fix_clear fix_svary fix_qmkey fix_ims : bool.
+  Variable sfilter : N -> bool.
+  Variable parse_ims : bytes -> option Z.
+  Variable prime : request -> request.
+  Variable override : request -> option (bytes * option bytes).
+  Variable refuses : request -> fatx -> bool.
+  Variable vary_tuple : request -> option (bytes * option bytes) -> tuple.
+  Variable vary_header : request -> option (bytes * option bytes) -> fatx -> list (bytes * bytes).
+  Variable clear_alias : request -> option request.
+
+  Notation runW := (run_gw true true fix_errline cors cache_on ims_on true fix_ovkey fix_clear fix_svary fix_qmkey fix_ims
+                           sfilter parse_ims prime override refuses vary_tuple vary_header clear_alias).
+  Notation stepW := (step_gw true true fix_errline cors cache_on ims_on true fix_ovkey fix_clear fix_svary fix_qmkey fix_ims
+                             sfilter parse_ims prime override refuses vary_tuple vary_header clear_alias).
+
+  Lemma step_gw_conf w st now o st' now' ob :
+    world_ok secret w -> XInv (contains_sub secret) (fst st) -> stepW w st now o = (st', now', ob) ->
+    XInv (contains_sub secret) (fst st') /\ reply_ok_w secret prime (w, o) ob.
+  Proof.
+    intros (Hfs & Herr & Htm) Hc Es. unfold step_gw in Es.
+    pose proof (step_conf unit (compute_g true true fix_errline cors (wd_fs w) (wd_err w) (wd_tmpl w)) cache_on ims_on
+                  fix_ovkey fix_clear fix_svary fix_qmkey fix_ims sfilter parse_ims
+                  sanitize_ok_g prime override (negotiate_g (wd_err w) refuses) vary_tuple vary_header clear_alias
+                  (contains_sub secret) (permitted (wd_fs w))) as H.
+    assert (H1 : forall (hs : unit) r ov ok,
+               contains_sub secret (f_body (fx_fat (fst (fst (compute_g true true fix_errline cors (wd_fs w) (wd_err w) (wd_tmpl w) hs r ov ok))))) = true ->
+               permitted (wd_fs w) r).
+    { intros hs r ov ok. cbn [compute_g fst plain fx_fat].
+      apply (decision fix_errline cors (wd_fs w) (wd_err w) (wd_tmpl w) secret Hfs Herr Htm Hcors). }
+    assert (H2 : forall (hs : unit) r ov ok,
+               may_store_x cache_on sfilter (rq_method r)
+                 (fst (fst (compute_g true true fix_errline cors (wd_fs w) (wd_err w) (wd_tmpl w) hs r ov ok))) = true ->
+               contains_sub secret (f_body (fx_fat (fst (fst (compute_g true true fix_errline cors (wd_fs w) (wd_err w) (wd_tmpl w) hs r ov ok))))) = false).
+    { intros hs r ov ok. cbn [compute_g fst].
+      apply (stored_clean fix_errline cors (wd_fs w) (wd_err w) (wd_tmpl w) secret Hfs Herr Htm Hcors). }
+    assert (H3 : forall r x st0 b, negotiate_g (wd_err w) refuses r x = Some (st0, b) -> contains_sub secret b = false).
+    { intros r x st0 b. unfold negotiate_g. destruct (refuses r x); [|discriminate].
+      intros E; inversion E; subst. apply Herr. }
+    destruct (H (bad_nil cors (wd_fs w) (wd_err w) (wd_tmpl w) secret Hfs Herr Htm Hcors) H1 H2 H3 st now o st' now' ob Hc Es)
+      as [Hc' Hob].
+    split; [exact Hc'|]. unfold reply_ok_w. cbn [fst snd].
+    destruct o as [r|r| |ms], ob as [rp lg| |]; cbn [reply_ok obs_ok] in *; auto.
+  Qed.
+
+  Lemma run_gw_conf wops : forall st now,
+    XInv (contains_sub secret) (fst st) -> Forall (fun wo => world_ok secret (fst wo)) wops ->
+    Forall2 (reply_ok_w secret prime) wops (runW st now wops).
+  Proof.
+    induction wops as [|[w o] wops IH]; intros st now Hc Hw; cbn [run_gw]; [constructor|].
+    inversion Hw as [|x l Hw1 Hw2]; subst. cbn [fst] in Hw1.
+    destruct (stepW w st now o) as [[st' now'] ob] eqn:Es.
+    destruct (step_gw_conf w st now o st' now' ob Hw1 Hc Es) as [Hc' Hob].
+    constructor; [exact Hob|]. apply IH; assumption.
+  Qed.
+
+  Lemma guarded_content_confined_changing_lemma : forall now wops,
+    Forall (fun wo => world_ok secret (fst wo)) wops ->
+    Forall2 (reply_ok_w secret prime) wops (runW ([], tt) now wops).
+  Proof. intros now wops Hw. apply run_gw_conf; [apply XInv_nil | exact Hw]. Qed.
+End ChangingConfined.
+
+(** a history whose world never changes is a history of [run_g] *)
+Lemma run_gw_constant fix_ext fix_lock fix_errline cors cache_on ims_on fix_ovkey fix_clear fix_svary fix_qmkey fix_ims
+      sfilter parse_ims prime override refuses vary_tuple vary_header clear_alias fs errpage tmpl ops : forall st now,
+  run_gw fix_ext fix_lock fix_errline cors cache_on ims_on true fix_ovkey fix_clear fix_svary fix_qmkey fix_ims
+         sfilter parse_ims prime override refuses vary_tuple vary_header clear_alias st now
+         (map (fun o => (mkW fs errpage tmpl, o)) ops) =
+  runX unit (compute_g fix_ext fix_lock fix_errline cors fs errpage tmpl) cache_on ims_on true fix_ovkey fix_clear fix_svary
+       fix_qmkey fix_ims sfilter parse_ims sanitize_ok_g prime override (negotiate_g errpage refuses) vary_tuple vary_header
+       clear_alias st now ops.
+Proof.
+  induction ops as [|o ops IH]; intros st now; cbn [map run_gw runX]; [reflexivity|].
+  unfold step_gw. cbn [wd_fs wd_err wd_tmpl].
+  destruct (stepX unit (compute_g fix_ext fix_lock fix_errline cors fs errpage tmpl) cache_on ims_on true fix_ovkey fix_clear
+                  fix_svary fix_qmkey fix_ims sfilter parse_ims sanitize_ok_g prime override (negotiate_g errpage refuses)
+                  vary_tuple vary_header clear_alias st now o) as [[st' now'] ob].
+  rewrite IH. reflexivity.
+Qed.
+
+Lemma changing_files_extends_fixed_files_lemma :
+  forall fix_ext fix_lock fix_errline cors fs errpage tmpl cache_on ims_on fix_ovkey fix_clear fix_svary fix_qmkey fix_ims
+         sfilter parse_ims prime override refuses vary_tuple vary_header clear_alias c now ops,
+    run_gw fix_ext fix_lock fix_errline cors cache_on ims_on true fix_ovkey fix_clear fix_svary fix_qmkey fix_ims
+           sfilter parse_ims prime override refuses vary_tuple vary_header clear_alias (c, tt) now
+           (map (fun o => (mkW fs errpage tmpl, o)) ops) =
+    run_g fix_ext fix_lock fix_errline cors fs errpage tmpl cache_on ims_on fix_ovkey fix_clear fix_svary fix_qmkey fix_ims
+          sfilter parse_ims prime override refuses vary_tuple vary_header clear_alias c now ops.
+Proof. intros. unfold run_g. apply run_gw_constant. Qed.
+
+(** a scenario without write operations runs as before *)
+Lemma g_wops_no_writes g w ops : g_wops g w (map GOp ops) = map (fun o => (w, o)) ops.
+Proof. induction ops as [|o ops IH]; cbn [map g_wops]; [reflexivity|]. rewrite IH. reflexivity. Qed.
+Lemma run_gcfg_w_no_writes_lemma fix_ext fix_lock fix_errline g ops :
+  run_gcfg_w fix_ext fix_lock fix_errline true g (map GOp ops) = run_gcfg fix_ext fix_lock fix_errline g ops.
+Proof.
+  unfold run_gcfg_w, run_gcfg. rewrite g_wops_no_writes. unfold world_of_g. cbv zeta.
+  apply changing_files_extends_fixed_files_lemma.
+Qed.
+
+(** a history violates the property: some reply carries the secret although its request is not permitted in the world of
+    its moment *)
+Definition violates_w (secret : bytes) (wops : list (world * opx)) (obs : list obsx) : Prop :=
+  exists i w r rp lg, nth_error wops i = Some (w, XReq r) /\ nth_error obs i = Some (XbReply rp lg) /\
+                      leaks secret rp = true /\ ~ permitted (wd_fs w) r.
+Lemma violates_w_not_ok secret wops obs :
+  violates_w secret wops obs -> ~ Forall2 (reply_ok_w secret (fun r => r)) wops obs.
+Proof.
+  intros [i [w [r [rp [lg [Ho [Hb [Hl Hp]]]]]]]] F. revert i Ho Hb.
+  induction F as [|o ob ops obs' Hok F IH]; intros [|i] Ho Hb; cbn [nth_error] in *; try discriminate.
+  - inversion Ho; inversion Hb; subst. unfold reply_ok_w in Hok. cbn [fst snd reply_ok] in Hok. auto.
+  - eapply IH; eassumption.
+Qed.
+
+(** the witness: [/page.html] has a vary rule on [x-v]; the page is public when a stranger fetches variant "a" (cached); then
+    the file gets [!> allow-ips 10.0.0.1]; 10.0.0.1 asks for variant "b", then 10.0.0.2 does *)
+Definition w_page_pub : bytes := Eval vm_compute in B "public for now".
+Definition w_world_pub : world := mkW (fun t => if beq t (B "page.html") then Some w_page_pub else None) w_err w_tmpl.
+Definition w_world_grd : world := mkW (fun t => if beq t (B "page.html") then Some w_ac else None) w_err w_tmpl.
+Definition w_page_rules : list (bytes * list vrule) := [(B "/page.html", [(B "x-v", 0, B "-")])].
+Definition w_getv (addr : N) (v : bytes) : opx := XReq (mkReq M_GET (B "/page.html") None [(B "x-v", v)] addr).
+Definition w_deploy : list (world * opx) :=
+  [ (w_world_pub, w_getv 2 (B "a")); (w_world_grd, XWait 0); (w_world_grd, w_getv 1 (B "b")); (w_world_grd, w_getv 2 (B "b")) ].
+Definition w_run_w (fix_vary : bool) (wops : list (world * opx)) : list obsx :=
+  run_gw true true true false true true fix_vary true true true true true status_filter_drop (fun _ => None) (fun r => r)
+         (fun _ => None) (fun _ _ => false) (vary_tuple_x true w_page_rules) (vary_header_x true w_page_rules) clear_alias_fix
+         ([], tt) 0 wops.
+Lemma w_deploy_worlds_ok : Forall (fun wo => world_ok W_SECRET (fst wo)) w_deploy.
+Proof.
+  assert (Hp : world_ok W_SECRET w_world_pub).
+  { split; [|split; [intros s; vm_compute; reflexivity | intros args b H; exact H]].
+    intros t c. cbn [wd_fs w_world_pub]. destruct (beq t (B "page.html")); [|discriminate].
+    intros H Hc. inversion H; subst. vm_compute in Hc. discriminate. }
+  assert (Hg : world_ok W_SECRET w_world_grd).
+  { split; [|split; [intros s; vm_compute; reflexivity | intros args b H; exact H]].
+    intros t c. cbn [wd_fs w_world_grd]. destruct (beq t (B "page.html")) eqn:E; [|discriminate].
+    apply beq_eq in E. subst. intros H _. inversion H; subst. vm_compute. reflexivity. }
+  unfold w_deploy. repeat (apply Forall_cons; [cbn [fst]; assumption|]). apply Forall_nil.
+Qed.
+Lemma vary_admission_v0_refuted_lemma :
+  Forall (fun wo => world_ok W_SECRET (fst wo)) w_deploy /\ violates_w W_SECRET w_deploy (w_run_w false w_deploy).
+Proof.
+  split; [exact w_deploy_worlds_ok|].
+  exists 3%nat. eexists. eexists. eexists. eexists.
+  split; [reflexivity|]. split; [vm_compute; reflexivity|].
+  split; [vm_compute; reflexivity|]. apply permitted_b_false. vm_compute. reflexivity.
+Qed.
+Definition w_summary_w (wops : list (world * opx)) (obs : list obsx) : list (N * bool * bool) :=
+  map (fun '(wo, ob) => match wo, ob with
+                        | (w, XReq r), XbReply rp _ => (rx_status rp, leaks W_SECRET rp, permitted_b (wd_fs w) r)
+                        | _, _ => (0, false, false)
+                        end) (combine wops obs).
+Lemma w_deploy_repaired_lemma :
+  w_summary_w w_deploy (w_run_w true w_deploy) = [ (200, false, false); (0, false, false); (200, true, true); (404, false, false) ] /\
+  w_summary_w w_deploy (w_run_w false w_deploy) = [ (200, false, false); (0, false, false); (200, true, true); (200, true, false) ].
+Proof. vm_compute. split; reflexivity. Qed.
+
+(** ---------------------------------------------------------------------------
+    The [!> ] line has no length limit: for every line of the grammar (Properties/C16.v [present_line_spec]: any number of
+    words of any length) the directives are those written on it. *)
+Lemma guard_line_any_length_lemma (ws : list bytes) (crlf : bool) (rest : bytes) :
+  PresentLine.line_words_ok ws ->
+  line_of (PresentLine.render_line ws crlf ++ rest) =
+    Some {| PresentLine.p_entries := PresentLine.group_words None (PresentLine.nonempty_words ws);
+            PresentLine.p_data_start := length (PresentLine.render_line ws crlf);
+            PresentLine.p_body := rest |} /\
+  entries_of (PresentLine.render_line ws crlf ++ rest) = PresentLine.group_words None (PresentLine.nonempty_words ws).
+Proof.
+  intros H. pose proof (present_line_grammar ws crlf rest H) as E.
+  split.
+  - unfold line_of. rewrite E. reflexivity.
+  - unfold entries_of. rewrite E. reflexivity.
+Qed.
+
+(** an address word of an allow list: not empty, no separator, UTF-8, not the word [&>] *)
+Definition addr_word (w : bytes) : Prop :=
+  PresentLine.word_ok w = true /\ w <> [] /\ w <> PresentLine.PRESENT_INTERNAL_AND_TRIMMED.
+
+Lemma group_words_args n acc ws :
+  Forall addr_word ws -> PresentLine.group_words (Some (n, acc)) (PresentLine.nonempty_words ws) = [(n, acc ++ ws)].
+Proof.
+  revert acc. induction ws as [|w ws IH]; intros acc H; cbn [PresentLine.nonempty_words filter PresentLine.group_words].
+  - rewrite app_nil_r. reflexivity.
+  - inversion H as [|x l (Hw & Hne & Hand) Hr]; subst.
+    destruct w as [|c w]; [contradiction|]. cbn [PresentLine.group_words].
+    destruct (beq (c :: w) PresentLine.PRESENT_INTERNAL_AND_TRIMMED) eqn:E; [apply beq_eq in E; contradiction|].
+    fold (PresentLine.nonempty_words ws). rewrite IH by exact Hr. rewrite <- app_assoc. reflexivity.
+Qed.
+
+Lemma allow_list_any_length_lemma (addrs : list bytes) (crlf : bool) (rest : bytes) :
+  Forall addr_word addrs ->
+  line_of (PresentLine.render_line (N_ALLOW :: addrs) crlf ++ rest) =
+    Some {| PresentLine.p_entries := [(N_ALLOW, addrs)];
+            PresentLine.p_data_start := length (PresentLine.render_line (N_ALLOW :: addrs) crlf);
+            PresentLine.p_body := rest |} /\
+  entries_of (PresentLine.render_line (N_ALLOW :: addrs) crlf ++ rest) = [(N_ALLOW, addrs)].
+Proof.
+  intros H.
+  assert (Hg : PresentLine.group_words None (PresentLine.nonempty_words (N_ALLOW :: addrs)) = [(N_ALLOW, addrs)]).
+  { change (PresentLine.nonempty_words (N_ALLOW :: addrs)) with (N_ALLOW :: PresentLine.nonempty_words addrs).
+    cbn [PresentLine.group_words]. change (beq N_ALLOW PresentLine.PRESENT_INTERNAL_AND_TRIMMED) with false. cbv iota.
+    apply (group_words_args N_ALLOW [] addrs H). }
+  assert (Hok : PresentLine.line_words_ok (N_ALLOW :: addrs)).
+  { split.
+    - constructor; [vm_compute; reflexivity|]. eapply Forall_impl; [|exact H]. intros w (Hw & _). exact Hw.
+    - destruct addrs as [|a r]; [vm_compute; reflexivity|].
+      cbn [PresentLine.render_words]. reflexivity. }
+  destruct (guard_line_any_length_lemma (N_ALLOW :: addrs) crlf rest Hok) as [E1 E2].
+  rewrite Hg in E1, E2. split; assumption.
+Qed.
+
+(** ... so an allow list of ANY length refuses every address that is not on it, and serves those that are *)
+Lemma long_allow_list_decides_lemma :
+  forall (cors : bool) (fs : bytes -> option bytes) (errpage : N -> bytes) (tmpl : list bytes -> bytes -> bytes),
+    first_tmpl (entries_of (errpage 404)) = None ->
+  forall r ov t (addrs : list bytes) (crlf : bool) (rest : bytes),
+    Forall addr_word addrs ->
+    served_file (rq_path r) = Ok (Some t) -> fs t = Some (PresentLine.render_line (N_ALLOW :: addrs) crlf ++ rest) ->
+    get_or_head (rq_method r) = true -> (cors && is_cors_fail ov) = false ->
+    (existsb (arg_matches (rq_addr r)) addrs = false ->
+       f_status (layer_b true true true cors fs errpage tmpl r ov true) = 404 /\
+       f_body (layer_b true true true cors fs errpage tmpl r ov true) = host_404_body errpage) /\
+    (existsb (arg_matches (rq_addr r)) addrs = true -> is_private t = false ->
+       f_status (layer_b true true true cors fs errpage tmpl r ov true) = 200 /\
+       f_body (layer_b true true true cors fs errpage tmpl r ov true) = rest /\
+       f_spref (layer_b true true true cors fs errpage tmpl r ov true) = SP_NONE).
+Proof.
+  intros cors fs errpage tmpl Herr r ov t addrs crlf rest Ha Es Ef Em Ec.
+  destruct (allow_list_any_length_lemma addrs crlf rest Ha) as [El Ee].
+  split.
+  - intros Hn.
+    apply (guarded_answer_is_404_lemma cors fs errpage tmpl Herr r ov t _ Es Ef Em Ec).
+    + rewrite Ee. reflexivity.
+    + right. rewrite Ee. cbn [listed forallb fst snd]. change (beq N_ALLOW N_ALLOW) with true. cbv iota.
+      rewrite Hn. reflexivity.
+  - intros Hy Hp.
+    pose proof (private_hit_served _ _ Es) as Hph. rewrite Hp in Hph.
+    unfold layer_b, base. cbn [negb]. rewrite Es, Ec, Em, Ef.
+    unfold present. cbn [ps_body file_pst]. rewrite El, Hph.
+    cbn [PresentLine.p_entries PresentLine.p_body fold_left ps_status ps_headers ps_spref ps_cpref ps_locked file_pst].
+    unfold step. change (beq N_ALLOW N_HIDE) with false. change (beq N_ALLOW N_ALLOW) with true. cbv iota.
+    unfold do_allow. rewrite Hy. cbn. auto.
+Qed.
+
+(** [handle_vary_missing] for an [allow-ips] file: whatever item of whatever earlier world the lookup found, the answer computed now
+    (for a listed or an unlisted client) is not pushed into it — the cache is left as the lookup left it *)
+Lemma allow_ips_variant_never_pushed_lemma :
+  forall (fix_errline cors : bool) (fs : bytes -> option bytes) (errpage : N -> bytes) (tmpl : list bytes -> bytes -> bytes)
+         cache_on ims_on fix_svary fix_qmkey sfilter refuses vary_tuple vary_header c1 now r ov k e t c,
+    served_file (rq_path r) = Ok (Some t) -> fs t = Some c -> is_hidden t c = false -> is_allow_ips c = true ->
+    get_or_head (rq_method r) = true -> (cors && is_cors_fail ov) = false ->
+    fst (fst (vary_missingX unit (compute_g true true fix_errline cors fs errpage tmpl) cache_on ims_on true fix_svary fix_qmkey sfilter
+                            (negotiate_g errpage refuses) vary_tuple vary_header c1 tt now r ov true k e)) = (c1, tt).
+Proof.
+  intros fix_errline cors fs errpage tmpl cache_on ims_on fix_svary fix_qmkey sfilter refuses vary_tuple vary_header c1 now r ov k e t c
+         Es Ef Hh Ha Hm Hc.
+  destruct (allow_ips_never_stored_lemma fix_errline cors fs errpage tmpl r ov t c cache_on sfilter Es Ef Hh Ha Hm Hc) as [_ Hns].
+  unfold vary_missingX. cbn [compute_g]. rewrite Hns. cbn [andb fst]. reflexivity.
+Qed.
